@@ -35,6 +35,7 @@ def leaves():
         ('bornmayer', form('bornmayer', 850.0, 0.35), 2), ('buck', form('buck', 1000.0, 0.3, 32.0), 2),
         ('constant', form('constant', 2.5), 2), ('coul', form('coul', 2.4, -1.2), 2),
         ('exponential_frac', form('exponential', 3.0, -2.5), 2), ('exponential_int', form('exponential', 0.5, 2), 2),
+        ('exponential_lin', form('exponential', 0.75, 1), 2), ('exponential_const', form('exponential', 1.25, 0), 2),
         ('exp_spline', form('exp_spline', 0.1, -0.2, 0.05, 0.01, -0.002, 0.0001, 0.3), 2), ('hbnd', form('hbnd', 120.0, 35.0), 2),
         ('lj', form('lj', 0.2, 2.5), 2), ('morse', form('morse', 1.8, 2.0, 0.6), 2),
         ('polynomial', form('polynomial', 1.0, -2.0, 0.5, 0.1), 2), ('poly_neg', form('polynomial', -1.0, 0.1), 2),
@@ -77,6 +78,15 @@ def min_level(d):
 def cases(tier):
     out = []
     L = leaves()
+    # ---- every built-in form over the parameter lattice of C06: deriv/deriv2 of the potential functions themselves
+    from . import C06
+    P = C06.lattice(tier)
+    for name in sorted(P):
+        if name == 'buck4':
+            continue
+        vecs = P[name]
+        for i in range(0, len(vecs), 40):
+            out.append(dict(route='leaf', form=name, params=[list(v) for v in vecs[i:i + 40]]))
     # ---- Python API trees
     for c in ('sum', 'product', 'pow'):
         for (na, a, _la), (nb, b, _lb) in itertools.product(L, L):
@@ -207,7 +217,55 @@ def build(case):
     return tab.potentials[0].potentialFunction, d
 
 
+def run_leaf(case):
+    import atsim.potentials.potentialfunctions as pf
+    from ..refmodel import forms as F
+    name = case['form']
+    fn = getattr(pf, name)
+    ref = F.FORMS[name]
+    viol, evals, skipped = [], 0, 0
+    for p in case['params']:
+        for r in RS + [0.0]:
+            if name == 'tang_toennies' and r < 0.8:
+                continue
+            try:
+                j = ref(Jet.var(r), *p)
+            except (ZeroDivisionError, ValueError, OverflowError, TypeError):
+                skipped += 1
+                continue
+            try:
+                fn(r, *p)
+            except (ZeroDivisionError, ValueError, OverflowError):
+                skipped += 1     # energy itself undefined here
+                continue
+            from . import C06
+            base = max(abs(j.v), C06.scale(name, r, tuple(p)) if r > 0 else abs(j.v))
+            if not all(math.isfinite(x) and abs(x) < 1e200 for x in (j.v, j.d1, j.d2, base)):
+                skipped += 1
+                continue
+            for which, want, sc in (('deriv', j.d1, abs(j.d1) + base * (1 + (12.0 / r if r > 0 else 0))),
+                                    ('deriv2', j.d2, abs(j.d2) + base * (1 + (160.0 / (r * r) if r > 0 else 0)))):
+                evals += 1
+                try:
+                    got = getattr(fn, which)(r, *p)
+                except (ZeroDivisionError, ValueError, OverflowError) as e:
+                    viol.append(dict(sig='%s-raises:%s' % (which, engine.exc_sig(e).split(':', 1)[1]),
+                                     msg='as.%s%r: %s(%r) raised %s: %s although the energy is defined there' % (name, tuple(p), which, r, type(e).__name__, e), detail={}))
+                    break
+                if not abs(got - want) <= 1e-10 * sc + 1e-300:
+                    viol.append(dict(sig='%s-wrong:%s' % (which, name), msg='as.%s%r: %s(%r) = %r, true derivative %r' % (name, tuple(p), which, r, got, want), detail={}))
+                    break
+            else:
+                continue
+            break
+        if viol:
+            break
+    return dict(outcome='ok:leaf:%s' % name if not viol else 'violation', nontrivial=True, evals=evals, violations=viol, skipped=skipped)
+
+
 def run_case(case):
+    if case['route'] == 'leaf':
+        return run_leaf(case)
     env = M.env()
     try:
         f, dref = build(case)
